@@ -2,6 +2,7 @@
 //! `AfcMessage.tla` cells into `aranya_fast_channels::Client` (C39), `CryptoBinding.tla` cells
 //! into real `DefaultEngine` objects (C34, C36, C37, C38).
 mod afcmsg;
+mod enc;
 mod ops;
 mod sign;
 mod util;
@@ -13,6 +14,7 @@ fn main() {
         "afcmsg" => afcmsg::run(&args),
         "cmdsig" => sign::run(&args),
         "wrap" => wrap::run(&args),
+        "enc" => enc::run(&args),
         s => vrt::die(&format!("unknown subcommand {s}")),
     }
 }
